@@ -99,13 +99,13 @@ structure Side (c : Cfg) (S : List Pkg) : Prop where
   /-- one member per name (C02 `Valid`, clause 3) -/
   names : ∀ p ∈ S, ∀ q ∈ S, p.name = q.name → p = q
   /-- not F09e: every member's version parses -/
-  pvOk : ∀ p ∈ S, ∃ v, pv p.version = some v
+  pvOk : ∀ p ∈ S, (pv p.version).isSome = true
   /-- the version text of every dependency of a member parses (only restricts dependencies whose operator run is
   not an operator, e.g. `b==x`: those read as "any version" but keep the text, see `depAnyJunk_witness`) -/
   depPv : ∀ p ∈ S, ∀ d ∈ p.deps, isConflict d = false →
-    (parseConstraint d).version = [] ∨ ∃ v, pv (parseConstraint d).version = some v
+    (parseConstraint d).version = [] ∨ (pv (parseConstraint d).version).isSome = true
   /-- not F09f (conflict part): no `!x` dependency of a member is violated by a member -/
-  noConf : ∀ p ∈ S, ∀ x, ('!' :: x) ∈ p.deps → ∀ q ∈ S, sat q x = false
+  noConf : ∀ p ∈ S, ∀ d ∈ p.deps, isConflict d = true → ∀ q ∈ S, sat q (d.drop 1) = false
 
 /-- no member is disqualified -/
 def Free (S : List Pkg) (dq : List Nat) : Prop := ∀ p ∈ S, dq.contains p.id = false
@@ -316,7 +316,7 @@ theorem dep_conOK {c : Cfg} {S : List Pkg} (ctx : Ctx c S) (sd : Side c S) {pkg 
     ∀ d ∈ pkg.deps, ConOK S d := by
   intro d hd
   rcases bang_or_not d with ⟨x, rfl⟩ | hnb
-  · exact Or.inl ⟨x, rfl, sd.noConf pkg hpkg x hd⟩
+  · exact Or.inl ⟨x, rfl, sd.noConf pkg hpkg _ hd rfl⟩
   · right
     refine ⟨hnb, ?_⟩
     obtain ⟨q, hq, hqn, hv⟩ := closed_member ctx hpkg hd (isConflict_false_of_not_bang hnb)
@@ -370,11 +370,11 @@ theorem depOption_not_fail {c : Cfg} {S : List Pkg} (ctx : Ctx c S) (sd : Side c
         · intro h; cases h
         · next hve =>
           have hve' : (parseConstraint d).version ≠ [] := by simpa using hve
-          obtain ⟨act, hact⟩ := sd.pvOk picked hps
+          obtain ⟨act, hact⟩ := Option.isSome_iff_exists.mp (sd.pvOk picked hps)
           obtain ⟨req, hreq⟩ : ∃ v, pv (parseConstraint d).version = some v := by
             rcases sd.depPv pkg hpkg d hd hnc with h | h
             · exact absurd h hve'
-            · exact h
+            · exact Option.isSome_iff_exists.mp h
           have hsc : depOption.scan (parseConstraint d).name req picked.provides = some false := by
             rw [ctx.noprov picked (ctx.sIn picked hps)]; rfl
           have hs : (parseConstraint d).dep.satisfies act req = true := by
